@@ -248,5 +248,23 @@ func ExtremesFamily() []Named {
 		&Def{Kind: "message", Name: "Bag", Fields: []Field{mf(1, "as", MapOf("string", ArrayOf(Simple("NestA")))), mf(2, "m", Simple("NestM"))}},
 		&Def{Kind: "struct", Name: "UsesMembers", Fields: []Field{f("a", Simple("NestA")), f("cs", ArrayOf(Simple("NestC"))), f("tail", Simple("int32"))}})
 	out = append(out, Named{"extremes/member-types-used-elsewhere", s})
+
+	// structs whose wire size is not a function of their decoded content alone: they hold a
+	// message / union (skipped by the announced length), and are themselves held by value, in
+	// arrays and in maps of records that read more after them
+	s = &Schema{}
+	s.Defs = append(s.Defs,
+		&Def{Kind: "message", Name: "VarM", Fields: []Field{mf(1, "s", Simple("string")), mf(2, "n", Simple("int64"))}},
+		&Def{Kind: "union", Name: "VarU", Branches: []Branch{
+			{Index: 1, Def: &Def{Kind: "message", Name: "VarUm", Fields: []Field{mf(1, "s", Simple("string"))}}},
+			{Index: 2, Def: &Def{Kind: "struct", Name: "VarUs", Fields: []Field{f("g", Simple("guid"))}}}}},
+		&Def{Kind: "struct", Name: "HoldM", Fields: []Field{f("m", Simple("VarM")), f("x", Simple("int32"))}},
+		&Def{Kind: "struct", Name: "HoldU", Fields: []Field{f("u", Simple("VarU")), f("x", Simple("int32"))}},
+		&Def{Kind: "struct", Name: "OuterM", Fields: []Field{f("s", Simple("HoldM")), f("tail", Simple("int32"))}},
+		&Def{Kind: "struct", Name: "OuterU", Fields: []Field{f("s", Simple("HoldU")), f("tail", Simple("int32"))}},
+		&Def{Kind: "struct", Name: "OuterArr", Fields: []Field{f("ss", ArrayOf(Simple("HoldM"))), f("tail", Simple("int32"))}},
+		&Def{Kind: "struct", Name: "OuterMap", Fields: []Field{f("ms", MapOf("uint8", Simple("HoldU"))), f("tail", Simple("int32"))}},
+		&Def{Kind: "message", Name: "OuterMsg", Fields: []Field{mf(1, "s", Simple("HoldM")), mf(2, "tail", Simple("int32"))}})
+	out = append(out, Named{"extremes/structs-holding-length-prefixed-records", s})
 	return out
 }
